@@ -623,7 +623,8 @@ def check_dns_names(ctx, rng):
             try:
                 hostwatch._check_dns(n)
             except BaseException as e:      # noqa
-                ctx.violation("the scanner's lookup of a name that cannot be represented ended the scanner (%s)" % type(e).__name__,
+                ctx.violation(F110_WHAT if ("\0" in n and isinstance(e, TypeError)) else
+                              "the scanner's lookup of a name that cannot be represented ended the scanner (%s)" % type(e).__name__,
                               {"stage": "check_dns", "name": repr(n)[:200]})
     finally:
         hostwatch.socket, hostwatch.found_host, hostwatch.check_host = old
@@ -633,6 +634,10 @@ def check_dns_names(ctx, rng):
 
 # --------------------------------------------------------------------------
 # the scanner's main loop (hostwatch.hw_main), its process (server.start_hostwatch) and the server's watch over it
+
+F110_WHAT = ("F110: a host name with a NUL byte in the remote hosts file ends the scanner process (gethostbyname refuses it with TypeError, "
+             "which escapes _check_dns); the server then ends the session")
+
 
 def resolver_arg(name):
     """What CPython does with the host argument of gethostbyname / gethostbyaddr BEFORE anything is looked up
@@ -803,8 +808,6 @@ def run_hw_main(work, w):
     def fake_select(r, wr, x, timeout=None):
         st["selects"] += 1
         if timeout:
-            if out.unflushed() and not out.broken and st["unflushed_at_wait"] is None:
-                st["unflushed_at_wait"] = out.unflushed()
             st["now"] += dts[st["waits"] % len(dts)]
             st["waits"] += 1
         if st["waits"] >= w["eof_after"] or (w.get("eof_at_select") and st["selects"] >= w["eof_at_select"]):
@@ -816,6 +819,8 @@ def run_hw_main(work, w):
         if st["selects"] in w.get("data_at", ()):
             st["readable"] = b"\n"
             return (list(r), [], [])
+        if timeout and out.unflushed() and not out.broken and st["unflushed_at_wait"] is None:
+            st["unflushed_at_wait"] = out.unflushed()      # the parent is there, nothing to read: this wait blocks
         return ([], [], [])
 
     def fake_read(fd, n):
@@ -1089,8 +1094,9 @@ def scanner_loop_cases(ctx, rng, quick, work, scanner_streams):
         rp = {"stage": "hw_main", "world": w}
         if r["status"].startswith("EXC") or r["status"] == "FUEL":
             cls = r["status"].split(":")[-1]
-            ctx.violation("the scanner process ended (%s) on %s that cannot be represented" % (cls, via) if via else
-                          "the scanner process ended (%s) on what it met on the remote machine" % cls, dict(rp, exception=cls))
+            nul_in_file = cls == "TypeError" and w.get("etc") and "00" in [w["etc"][j:j + 2] for j in range(0, len(w["etc"]), 2)]
+            ctx.violation(F110_WHAT if nul_in_file else "the scanner process ended (%s) on what it met on the remote machine" % cls,
+                          dict(rp, exception=cls, hostile_input=via))
         elif r["status"] == "STILL-RUNNING":
             ctx.disagree("hw_main keeps running after its input ended", repr(w)[:600], r["status"], "RETURN")
         elif r["status"] != "RETURN":
